@@ -114,6 +114,16 @@ func padPieces(r *core.Rand, ps []mt.Piece) []mt.Piece {
 		if r.P(1, 6) {
 			corep = corep + randWS(r) + c13NearWS[r.Intn(len(c13NearWS))]
 		}
+		// the nearest non-blank text may be a backslash-escaped delimiter (text like any other, written by another code path
+		// of the tokenizers); decided by the text itself so that the generator's stream is what it was
+		switch core.Hash64(corep, fmt.Sprint(i), "escaped-delimiter") % 12 {
+		case 0:
+			corep = "\\{{ esc }}" + corep
+		case 1:
+			corep = "\\{% esc %}" + corep
+		case 2:
+			corep = corep + "\\{# esc #}."
+		}
 		out[i].Text = randWS(r) + corep + randWS(r)
 	}
 	return out
